@@ -47,7 +47,9 @@ COMPONENTS = {
 }
 PROBES = ['retry_exhausted', 'retry_recovered', 'unknown_name_stmt',
           'mismatch_stmt', 'discovery_failed', 'discovery_partial',
-          'refresh_thread_survived_fault', 'get_failed', 'zone_ack_lost']
+          'refresh_thread_survived_fault', 'get_failed', 'zone_ack_lost',
+          'registers_left_by_failed_get_used', 'expiry_inside_group_command',
+          'light_expired_during_script']
 WALL_CAP = {'quick': 140, 'thorough': 1500}
 
 MISMATCH_OK = ('mismatch', 'unknown')
@@ -145,8 +147,53 @@ def _sentinel_stmt(pop, sentinel):
     return 'kelvin 9999 set "{}"'.format(pop[sentinel]['label'])
 
 
+def gen_expiry(rng):
+    """A bulb stops answering while a script keeps addressing its group and
+    location; the refresh thread expires it in mid-script.  The expiry is
+    held back until the script thread is inside a group/location command
+    (a legal schedule: the refresh thread is merely slow to be scheduled)."""
+    from sim import policy
+    pop = populations.gen_population(rng, 3, 4, kinds=('plain',),
+                                     ensure=('plain', 'plain', 'plain'))
+    for b in pop:
+        b['group'] = rng.choice(['Pole', 'Window'])
+        b['location'] = rng.choice(['Home', 'Office'])
+    n = len(pop)
+    idx = list(range(n))
+    rng.shuffle(idx)
+    sentinel, f, slow = idx[0], idx[1], idx[2]
+    pop[slow]['latency'] = 0.08
+    if rng.random() < 0.5:
+        # the expiring bulb shares its group with another one
+        pop[slow]['group'] = pop[f]['group']
+    if rng.random() < 0.5:
+        pop[sentinel]['location'] = pop[f]['location']
+    g, loc = pop[f]['group'], pop[f]['location']
+    cmds = [rng.choice(['kelvin 2501 set group "{}"'.format(g),
+                        'duration 1 on group "{}"'.format(g),
+                        'duration 2 off group "{}"'.format(g),
+                        'kelvin 2502 set location "{}"'.format(loc),
+                        'duration 3 on location "{}"'.format(loc),
+                        'kelvin 2503 set "{}" and group "{}"'.format(
+                            pop[sentinel]['label'], g)])
+            for _ in range(rng.randint(1, 3))]
+    pol = policy.draw_policy(rng, est_len=400, stalls=False)
+    if pol['gran'] == 'sync':
+        pol['gran'] = rng.choice(['line', 'opcode'])
+    return {'family': 'expiry', 'population': pop, 'faulty': [f],
+            'sentinel': sentinel, 'slow': slow, 'policy': pol,
+            'settings': {'sleep_time': 0.05},
+            'gc': rng.choice([4, 6]), 'silent_from': rng.choice([0.5, 2.0]),
+            'cmds': cmds,
+            'arrival': rng.randint(1, 24 if pol['gran'] == 'line' else 200),
+            'force': rng.choice([40, 200, 1000]),
+            'plan': []}
+
+
 def gen(rng, tier, index, family=None, faulty_kind=None, mode=None):
     from sim import policy
+    if family is None and rng.random() < 0.05:
+        return gen_expiry(rng)
     family = family or rng.choice(['script', 'script', 'script', 'discovery'])
     pop = populations.gen_population(rng, 3, 7,
                                      ensure=('plain', 'plain', 'mz', 'matrix')
@@ -168,9 +215,15 @@ def gen(rng, tier, index, family=None, faulty_kind=None, mode=None):
                        'default_num_lights': rng.choice([None, None, n])}}
     sc['policy']['gran'] = 'sync'
     if family == 'script':
+        # "loose" scripts do not re-assign the colour registers after a
+        # `get`: whatever an abandoned read left behind is used by the
+        # commands that follow (any unit mode).  Their datagrams are compared
+        # with the fault-free run by device and message type only.
+        loose = bool(faulty) and rng.random() < 0.3
+        sc['loose'] = loose
         text, meta = scripts.gen_script(rng, pop, {
-            'reassign_after_get': True, 'max_statements': 12,
-            'units_raw': 0.1})
+            'reassign_after_get': not loose, 'max_statements': 12,
+            'units_raw': 0.35 if loose else 0.1})
         base = list(meta['parts'])
         inject = []
         if not faulty or rng.random() < 0.5:
@@ -182,7 +235,7 @@ def gen(rng, tier, index, family=None, faulty_kind=None, mode=None):
         sc['inject'] = inject
         sc['plan'] = _fault_plan(rng, pop, faulty)
         text_all = ' '.join(base)
-        if ' all' not in text_all and rng.random() < 0.3:
+        if ' all' not in text_all and not loose and rng.random() < 0.3:
             # the network layer refuses 1-3 consecutive requests (socket
             # cannot be opened).  Only for scripts without broadcast
             # commands: `set all` has no retry wrapper (DESIGN.md 11.3).
@@ -231,6 +284,13 @@ def gen(rng, tier, index, family=None, faulty_kind=None, mode=None):
 
 
 def shrink(sc):
+    if sc['family'] == 'expiry':
+        for i in range(len(sc['cmds'])):
+            if len(sc['cmds']) > 1:
+                c = copy.deepcopy(sc)
+                del c['cmds'][i]
+                yield c
+        return
     if sc['family'] == 'script':
         for i in range(len(sc['inject'])):
             c = copy.deepcopy(sc)
@@ -427,8 +487,179 @@ def _simulate(sc, chooser, faults, with_inject):
     return obs
 
 
+_SCOPED = []
+
+
+def _scope_group_commands():
+    """Line and bytecode pre-emption inside the VM's group/location commands
+    and the directory look-ups and expiry they race with."""
+    if _SCOPED:
+        return
+    from sim import tracing
+    from bardolph.vm import machine
+    from bardolph.controller import light_set
+    vm = ('Machine._color_group', 'Machine._color_location',
+          'Machine._power_group', 'Machine._power_location',
+          'Machine._color_multiple', 'Machine._power_multiple')
+    tracing.scope_module(machine, only=vm + (
+        'Machine.run', 'Machine.stop', 'Machine._wait', 'Machine.reset'),
+        instructions=vm + ('Machine.stop', 'Machine.reset'))
+    ls = ('LightSet.get_light', 'LightSet.get_group_lights',
+          'LightSet.get_location_lights', 'LightSet._garbage_collect',
+          'LightSet._remove_memberships')
+    tracing.scope_module(light_set, only=ls + (
+        '_light_refresh', '_start_light_refresh', 'LightSet.refresh'),
+        instructions=ls)
+    _SCOPED.append(True)
+
+
+def _execute_expiry(sc, chooser):
+    from bardolph.controller.script_job import ScriptJob
+    from bardolph.controller import light_set as ls_mod
+    import inspect
+    cap = env.capture_logs()
+    viol = []
+    st = {'n': 0}
+    pop = sc['population']
+    f = sc['faulty'][0]
+    text = 'time 0 repeat 400 begin get "{}" hue 5 saturation 5 ' \
+        'brightness 5 {} end\n{}'.format(
+            pop[sc['slow']]['label'], ' '.join(sc['cmds']),
+            _sentinel_stmt(pop, sc['sentinel']))
+    src, first = inspect.getsourcelines(ls_mod.LightSet._garbage_collect)
+    gc_lines = set(range(first, first + len(src)))
+
+    def main(sim):
+        net, ls, ok = env.build_world(
+            sim, pop, plan=[], settings=dict(
+                sc['settings'], light_gc_time=sc['gc'], refresh_sleep_time=3,
+                failure_sleep_time=3))
+        st['net'] = net
+        net.plan = [{'kind': 'silent', 'device': f,
+                     'from': sim.now + sc['silent_from'], 'to': 1e12}]
+        ls = env.start_refresh_thread()
+        st['mark'] = sim.evno
+        job = ScriptJob.from_string(text)
+        st['compiled'] = job.program is not None
+
+        def body():
+            try:
+                job.execute()
+            except core.SimAbort:
+                raise
+            except Exception as ex:
+                st['escaped'] = '{}: {}'.format(type(ex).__name__, ex)
+        th = sim.spawn(body, 'script')
+
+        def ls_now():
+            from bardolph.lib import injection
+            from bardolph.controller import i_controller
+            return injection.provide(i_controller.LightSet)
+
+        def _due(lset):
+            # will this expiry pass remove the silent bulb?
+            lt = lset.get_light(pop[f]['label'])
+            return lt is not None and lt.get_age() > sc['gc']
+
+        def watcher(s, cur):
+            if st.get('released'):
+                return
+            gc_th = s.thread('discovery')
+            if gc_th is None or cur is None:
+                return
+            tag = cur.tag or ()
+            if cur is gc_th:
+                if not st.get('held') and tag[:1] == ('light_set.py',) \
+                        and tag[1] in gc_lines and _due(ls_now()):
+                    st['held'] = True
+                    s.parked[gc_th.name] = lambda: (
+                        not st.get('released') and th.state != 'done')
+            elif cur is th and st.get('held'):
+                if tag[:1] in (('machine.py',), ('light_set.py',)) and \
+                        len(tag) > 1 and isinstance(tag[1], (int, str)) and \
+                        _in_group_command(tag):
+                    st['n'] += 1
+                    if st['n'] >= sc['arrival']:
+                        st['released'] = True
+                        s.count('expiry_inside_group_command')
+                        s.force(gc_th.name, sc['force'])
+        sim.watch.append(watcher)
+        sim.join(th)
+        st['known_after'] = list(ls.get_light_names())
+
+    _scope_group_commands()
+    with world.StdoutCapture():
+        sim, out = world.run_sim(main, chooser, gran=sc['policy']['gran'],
+                                 step_cap=900000, fairness=200)
+    res = {'violations': viol, 'digest': sim.digest(),
+           'switch_digest': sim.switch_digest(), 'sim_time': sim.now,
+           'steps': sim.steps, 'faults': {}, 'probes': dict(sim.stats),
+           'deviations': list(sim.deviations), 'harness_error': None,
+           'shape': 'expiry:' + sc['policy']['gran']}
+    if out.status != 'ok':
+        res['harness_error'] = 'expiry run ended {}: {} {}'.format(
+            out.status, out.detail, world.fmt_stacks(out.stacks))
+        return res
+    if not st.get('compiled'):
+        res['harness_error'] = 'script rejected: ' + text
+        return res
+    res['faults'] = dict(st['net'].fired)
+    res['faults']['thread_preemption'] = sim.switches
+    label = pop[f]['label']
+    if label not in st['known_after']:
+        res['probes']['light_expired_during_script'] = 1
+    res['nontrivial'] = bool(st.get('released'))
+    stopped = [m for lv, m in cap.records if 'Machine stopped due to' in m]
+    # (the last command itself may find its light expired as well: a
+    # discovery that fails because of the one bulb renews nobody)
+    if st.get('escaped') or stopped:
+        viol.append({'sig': 'C12/script-stopped/expiry-during-command',
+                     'msg': 'bulb {!r} stopped answering and was expired by '
+                            'the refresh thread while the script was inside '
+                            'a group/location command; the script did not '
+                            'reach its last command: {}'.format(
+                                label, st.get('escaped') or stopped[0])})
+    return res
+
+
+def _in_group_command(tag):
+    # bytecode tags carry the function name, line tags the line number
+    if len(tag) >= 3 and isinstance(tag[1], str):
+        return tag[1] in ('_color_group', '_color_location', '_power_group',
+                          '_power_location', '_color_multiple',
+                          '_power_multiple', 'get_light', 'get_group_lights',
+                          'get_location_lights', '<listcomp>')
+    return (tag[0], tag[1]) in _group_lines()
+
+
+_GROUP_LINES = {}
+
+
+def _group_lines():
+    if not _GROUP_LINES:
+        import inspect
+        from bardolph.vm import machine
+        from bardolph.controller import light_set
+        out = set()
+        for fname, cls, names in (('machine.py', machine.Machine, (
+                '_color_group', '_color_location', '_power_group',
+                '_power_location', '_color_multiple', '_power_multiple')),
+                ('light_set.py', light_set.LightSet, (
+                    'get_light', 'get_group_lights',
+                    'get_location_lights'))):
+            for nm in names:
+                fn = inspect.unwrap(getattr(cls, nm))
+                src, first = inspect.getsourcelines(fn)
+                out.update((fname, k) for k in range(first,
+                                                     first + len(src)))
+        _GROUP_LINES['v'] = out
+    return _GROUP_LINES['v']
+
+
 def execute(scenario, chooser):
     sc = scenario
+    if sc['family'] == 'expiry':
+        return _execute_expiry(sc, chooser)
     viol = []
 
     def violation(sig, msg):
@@ -582,6 +813,10 @@ def execute(scenario, chooser):
             break
         if i in excluded or (comparable is not None and i not in comparable):
             continue
+        if sc.get('loose'):
+            probes['registers_left_by_failed_get_used'] = 1
+            rec_ref[i] = [t for t, _p in rec_ref[i]]
+            rec_run[i] = [t for t, _p in rec_run[i]]
         if rec_ref[i] != rec_run[i]:
             violation('healthy-device-disturbed',
                       'device {} ({}) received {} datagrams, fault-free run '
@@ -622,6 +857,10 @@ def execute(scenario, chooser):
             if key[0] == 'GetService':
                 continue      # one broadcast per discovery, never retried
             allowed = 3 * max(ref_runs.get(key, 1), 1)
+            if sc.get('loose'):
+                # payloads differ from the fault-free run: bound by type
+                allowed = 3 * max(sum(v for k2, v in ref_runs.items()
+                                      if k2[0] == key[0]), 1)
             if n > allowed:
                 violation('too-many-attempts',
                           'device {} ({}): {} unanswered attempts of one and '
